@@ -27,7 +27,7 @@ for m in muts:
         shutil.rmtree(d, ignore_errors=True)
         continue
     open(f, "w").write(s.replace(m["old"], m["new"]))
-    out = subprocess.run(["python3-vt", "-m", "pyvc.verify"], cwd=V, env=dict(os.environ, PYVC_REPO=d), capture_output=True, text=True).stdout
+    out = subprocess.run(["python3-vt", "-m", "pyvc.verify"] + (m.get("funcs") or []), cwd=V, env=dict(os.environ, PYVC_REPO=d), capture_output=True, text=True).stdout
     failed, cur, errors = [], None, []
     for ln in out.splitlines():
         if ln.startswith("== "):
